@@ -1,4 +1,6 @@
 import Pyrtma.Model.Emit
+import Pyrtma.Model.Combined
+import Pyrtma.Model.Paths
 /-!
 # Spec for C04 / C15 / C16 — predicates over what the four back ends printed
 
@@ -214,15 +216,55 @@ def loadClauses (py c js m : List Stmt) (cPre : List (Space × Name) := []) : Li
   [ ("python_loads", loads .py py), ("c_compiles", loads .c c cPre), ("js_loads", loads .js js),
     ("js_arrays_fresh", jsFresh js), ("matlab_defined_before_use", loads .m m) ]
 
-/-! ## C16: the combined YAML is the registry's own sections, so a re-parse reads the items section by section -/
+/-- the class of the open finding C15-F3: some alias resolves (directly or through other aliases) to a struct -/
+def Reg.aliasOfStruct (R : Reg) : Bool := R.aliases.any (·.isStruct)
 
-def Item.section : Item → Nat
-  | .const .. => 0 | .strConst .. => 1 | .alias .. => 2 | .hostId .. => 3 | .moduleId .. => 4
-  | .struct .. => 5 | .message .. => 6 | .signal .. => 6
+/-- the class of the open finding C15-F4: some struct has a field whose type is a message -/
+def Reg.structUsesMsg (R : Reg) : Bool := R.structs.any (fun d => d.fields.any (fun f => f.kind == .message))
 
-/-- the item order a re-parse of the combined file sees: stable by section, nothing marked as core -/
-def combine (items : List (Bool × Item)) : List (Bool × Item) :=
-  ([0, 1, 2, 3, 4, 5, 6].map (fun s => items.filter (fun x => x.2.section == s))).flatten.map (fun x => (false, x.2))
+/-! ## C16: what a re-parse of the combined YAML must preserve -/
+
+/-! ### what an item defines and what it refers to (hypotheses of the round-trip theorems, evaluated by the driver) -/
+
+def Item.defName : Item → Option Name
+  | .alias n _ => some n
+  | .struct n _ _ => some n
+  | .message n _ _ _ => some n
+  | .signal n _ _ => some n
+  | .reserved n _ _ => some n
+  | _ => none
+
+def Item.msgId : Item → Option Int
+  | .message _ id _ _ => some id
+  | .signal _ id _ => some id
+  | .reserved _ id _ => some id
+  | _ => none
+
+def isNative (T : Tables) (ty : Name) : Bool := (assoc T.natives ty).isSome
+
+/-- the names a `fields:` entry looks up in the registries (native type names never are) -/
+def specRefs (T : Tables) : FieldsSpec → List Name
+  | .list fs => (fs.map (·.2.1)).filter (fun ty => !isNative T ty)
+  | .reuse m => [m]
+
+def Item.refs (T : Tables) : Item → List Name
+  | .alias _ t => if isNative T t then [] else [t]
+  | .struct _ _ f => specRefs T f
+  | .message _ _ _ f => specRefs T f
+  | _ => []
+
+
+/-- the alias / struct / message names the closure defines, in parse order (`check_duplicate_name` keeps them distinct) -/
+def defNames (l : List (Bool × Item)) : List Name := l.filterMap (·.2.defName)
+
+
+/-- no item refers (by a non-native name) to something that an item of a *later section* defines: no alias of a
+struct (or of a message), no struct with a message-typed field or a message as `fields:` source.  Decidable; with
+distinct names it is exactly the class of closures outside the open finding C16-F2. -/
+def noFwdRef (T : Tables) (l : List (Bool × Item)) : Bool :=
+  l.all fun y => (y.2.refs T).all fun n =>
+    l.all fun x => !(x.2.defName == some n && decide (y.2.section < x.2.section))
+
 
 /-- ids, hashes, sizes, layouts of a registry, keyed by name, independent of `core` flags -/
 def DefR.sig (d : DefR) : Name × Option Int × Nat × Nat × Nat × List (Name × Name × Option Nat) :=
